@@ -8,6 +8,8 @@ mod pypi;
 mod resolvers;
 mod cacheseq;
 mod verdict;
+mod cachesched;
+mod cachefault;
 
 use std::collections::HashMap;
 
@@ -53,6 +55,10 @@ fn main() {
         "resolvers" => resolvers::run(&args),
         "cache-seq" => cacheseq::run(&args),
         "verdict" => verdict::run(&args),
+        "cache-sched" => cachesched::run(&args),
+        "cache-fault" => cachefault::run_fault(&args),
+        "crash-child" => cachefault::run_child(&args),
+        "migrate" => cachefault::run_migrate(&args),
         other => {
             eprintln!("unknown stream {other}");
             std::process::exit(2);
